@@ -5,7 +5,9 @@ CFG = {'scale_exponents': [-60, -40, -30, -27, -10, -8],   # the membership orac
     "count": {"quick": 10000, "thorough": 400000},
     "lean_files": ["GeoModel/BoolGlue.lean", "GeoModel/BoolSpec.lean", "GeoModel/Ops/C04.lean", "GeoModel/Winding.lean",
                    "GeoModel/RelateSpec.lean", "GeoModel/Valid.lean", "GeoModel/Area.lean",
-                   "GeoProofs/Lemmas/C04Wind.lean", "GeoProofs/Lemmas/C04Locate.lean"],
+                   "GeoProofs/Lemmas/C04Wind.lean", "GeoProofs/Lemmas/C04Locate.lean",
+                   "GeoProofs/Lemmas/C04XRound.lean", "GeoProofs/Lemmas/C04XMeasure.lean", "GeoProofs/Lemmas/C04XScan.lean",
+                   "GeoProofs/Lemmas/C04XLayer.lean", "GeoProofs/Lemmas/C04XGeneric.lean", "GeoProofs/Lemmas/C04XMulti.lean", "GeoProofs/Lemmas/C04XMembers.lean"],
     "rule": "55% pairs (A, B) of Polygon / MultiPolygon operands on one shared 3..8 grid (polyomino polygons with holes incl. holes tangent to "
             "the shell, star polygons with oblique edges, rectangles with holes, corner-touching / side-by-side multipolygons; identical operands, "
             "a second representation of the same point set, empty Polygon / MultiPolygon operands; a quarter with repeated vertices incl. a repeated "
@@ -13,8 +15,10 @@ CFG = {'scale_exponents': [-60, -40, -30, -27, -10, -8],   # the membership orac
             "0..8 consistently wound polygons (both directions, overlapping or edge-sharing members) against the fold of pairwise unions; 20% clip of "
             "simple line strings (lattice paths, paths running along a ring of the polygon, multi line strings) with invert = false and true; 10% the "
             "glue functions alone on raw rings / shapes with 0..3 repeated vertices in every position. Operands outside the domain (invalid by the exact "
-            "Lean validity spec, not consistently wound, non-simple line strings) are SKIPped and counted. A case is distinct by its input text; cases "
-            "with two empty operands / fewer than two union members are tagged triv.",
+            "Lean validity spec, non-simple line strings) are SKIPped and counted; unary_union collections that are NOT consistently wound (about 1 in 12 "
+            "of the polygon collections, every member with a direction of its own, and four corpus lines) are outside the domain too but are evaluated: glue "
+            "correspondence as usual, verdict always PASS, tags `mixed … region=fill-rule|other covers=… vs-fold=…` record what the real code does. "
+            "A case is distinct by its input text; cases with two empty operands / fewer than two union members are tagged triv.",
     "trusted_base": [
         "modelled, not verified: the overlay engine i_overlay — a parameter of the model with the assumed specification EngineSpec "
         "(GeoModel/BoolSpec.lean): region = rule(fill(subject), fill(clip)) off the input boundaries, output shapes outer-first / outer clockwise / "
@@ -25,8 +29,14 @@ CFG = {'scale_exponents': [-60, -40, -30, -27, -10, -8],   # the membership orac
         "edge; area tolerance 4·perimeter·D·2^-29 with perimeter and D replaced by their L1 upper bounds; lengths by rational square-root enclosures",
         "engine totality is part of the assumption: i_overlay 2.0.5 was observed (by the C20 check) not to return on inputs above ~32768 segments "
         "(parallel-sort path); the generated operands here stay far below that size",
-        "spec adequacy (S2): for a valid polygon, even-odd parity over all its rings = inside (Jordan) — hypothesis of booleanOp_pointwise_partial, "
-        "validated numerically by the membership clause",
+        "spec adequacy (S2): for a valid polygon, even-odd parity over all its rings = inside — now PROVED from polyValid at every point off the rings "
+        "(evenOdd_eq_inside_valid; GeoProofs/Lemmas/C04XScan.lean, C04XLayer.lean, C04XGeneric.lean on top of the WIND / SMLX Jordan lemmas). Member disjointness of a valid MultiPolygon (at most "
+        "one member contains a point off the rings) is proved too (members_apart, GeoProofs/Lemmas/C04XMembers.lean: from II = F, dim BB <= 0 of multiPolyValid "
+        "through the atoms of the DE-9IM specification). What S2 still rests on: that Geo.polyValid / multiPolyValid (GeoModel/Valid.lean, exact, decidable) "
+        "is the right formal reading of 'valid (Multi)Polygon' — the driver uses the same definition to decide the domain",
+        "measures: the area / length identities are proved for every finitely additive functional on regions that ignores the tolerance band "
+        "(AdditiveOn; weighted finite samples are instances); that Lebesgue area / arc length is such a functional is not formalised (no measure theory "
+        "is imported) — the driver compares the exact shoelace areas numerically",
     ],
     "assumptions": ["valid operands in the OGC sense (GeoModel/Valid.lean); coordinates on a power-of-two scaled integer grid (exact in f64 and in "
                     "the engine's fixed-point grid; crossing points of oblique edges are snapped by the engine — covered by the tolerance)",
@@ -43,12 +53,29 @@ MANIFEST = {
             "over means the requested operation with Difference = A ∧ ¬B (opToRule_combine), rebuilt polygons have closed rings, counter-clockwise exteriors, "
             "clockwise holes and the engine's region (polygonFromShape_closed / _winding / _inside), hence inside(result) ⇔ op(evenOdd A, evenOdd B) "
             "(booleanOp_evenOdd) and, with the Jordan-type assumption S2 as an explicit hypothesis, ⇔ op(inside A, inside B) (booleanOp_pointwise_partial); "
-            "the indicator identities behind the three area identities; unary_union's fill-rule choice selects the union of a consistently wound collection "
-            "and equals the fold of pairwise unions (unaryUnion_region_partial, foldUnion_region); clip(invert) and clip(¬invert) partition the line (clip_partition); the oracle's membership test Geo.locate = Inside is the region of the theorems off the rings (insideSpec_eq_mpInside); EngineSpec is satisfiable with a non-empty far-set (E1_spec). "
+            "S2 itself proved from polyValid at every point off the rings (evenOdd_eq_inside_valid: each simple ring winds 0 or by the sign of its area, a hole "
+            "winds only where its shell winds, two holes never wind together; first on levels avoiding the coordinates, then everywhere because the half-open "
+            "crossing rule is stable under a small move upwards), hence the pointwise statement at full strength for valid Polygon operands "
+            "(booleanOp_pointwise_polygon) and for valid MultiPolygon operands (booleanOp_pointwise: at most one member of a valid MultiPolygon contains a "
+            "point off the rings, members_apart — members with holes, members inside the holes of other members included); the intermediate forms stay as "
+            "theorems (booleanOp_pointwise_multi_partial for members that are only valid one by one, booleanOp_pointwise_multi_holefree_partial); "
+            "the indicator identities behind the three area identities, and the area identities themselves for every finitely additive measure on regions "
+            "(area_identities, area_eq_expectedArea: the oracle's expected areas are forced by additivity) and for the results of the four operations under "
+            "every measure living off the tolerance band (booleanOp_area_identities); the oracle's signed fan carries exactly the shoelace area "
+            "(oracle_fan_area); unary_union's fill-rule choice selects the union of a consistently wound collection "
+            "and equals the fold of pairwise unions (unaryUnion_region_partial, foldUnion_region) — WindingValid now derived from polyValid + orientation by "
+            "exact areas, so the unary_union statement holds at full strength (windingValid_of_valid, unaryUnion_region_valid); on EVERY closed-ring collection unary_union computes the Positive/Negative "
+            "region of the summed winding numbers (unaryUnion_fill_region), so in an inconsistently wound collection the members wound against the first ring "
+            "are dropped or cut out (unaryUnion_inconsistent_witness; the real code does exactly that: driver tag mixed region=fill-rule covers=less-than-union); "
+            "clip keeps exactly the parts inside (inverted: outside) a valid (Multi)Polygon (clip_partition_valid) and conserves length for every measure off the "
+            "tolerance band (clip_length_conserved); the area identities with area(A), area(B) the measures of the operands' interiors (booleanOp_area_identities_valid, "
+            "S2 for MultiPolygons: evenOdd_eq_inside_multi); the glue round trip polygon_from_shape ∘ ring_to_shape_path "
+            "returns every ring of a valid polygon, exterior first, holes in order, reversed and minus the extra closing coordinates, same region "
+            "(glue_roundTrip, glue_roundTrip_valid, glue_roundTrip_exact, glue_roundTrip_region); clip(invert) and clip(¬invert) partition the line (clip_partition); the oracle's membership test Geo.locate = Inside is the region of the theorems off the rings (insideSpec_eq_mpInside); EngineSpec is satisfiable with a non-empty far-set (E1_spec). "
             "Every run: the engine's recorded answers instantiate the parameter and the model's output must equal the API's; the API's results are judged by an "
             "exact oracle written in Lean (expected areas from |A|, |B| and the exact |A∩B|, membership at sample points off the input edges, ring direction and "
             "closedness, unary_union vs fold, clip pieces / coverage / length conservation).",
     "note": "Trusted: Lean kernel + audited axioms; the harness/generators (sampling); the engine assumption EngineSpec (validated numerically every run, not proved); "
-            "S2 (Jordan). Hook commit a034e536 (feature verif-hooks: glue functions + raw engine probes). Defect found and repaired: repeated closing vertex "
+            "S2 is no longer trusted (proved from polyValid / multiPolyValid). Hook commit a034e536 (feature verif-hooks: glue functions + raw engine probes). Defect found and repaired: repeated closing vertex "
             "halves the area (F5, fix e438f046).",
 }
